@@ -1,5 +1,6 @@
 (** C01 — G: what Go prescribes for MiniGo.  A fuel-indexed definitional interpreter with block
-    scoping, outcomes Normal | Break | Continue | Panic and an output trace.  Definitions only. *)
+    scoping, outcomes Normal | Break | Continue | Panic and an output trace; switch with first-match selection,
+    fallthrough and break.  Definitions only. *)
 From Verif Require Import Core.Syntax.
 
 (** Environment: innermost binding first.  [x := e] pushes a binding; leaving a block drops the
@@ -72,6 +73,75 @@ Definition restore (E0 E : env) : env := skipn (length E - length E0) E.
 Definition opt_cond (E : env) (c : option bexp) : option bool :=
   match c with None => Some true | Some c => beval E c end.
 
+(** switch: the case expressions are evaluated left to right, top to bottom, until one equals the tag
+    (without a tag: until one is true); [None] = panic while evaluating them. *)
+Fixpoint match_ints (E : env) (v : Z) (l : list aexp) : option bool :=
+  match l with
+  | [] => Some false
+  | e :: l' =>
+      match aeval E e with
+      | None => None
+      | Some w => if Z.eqb v w then Some true else match_ints E v l'
+      end
+  end.
+
+Fixpoint match_bools (E : env) (l : list bexp) : option bool :=
+  match l with
+  | [] => Some false
+  | e :: l' =>
+      match beval E e with
+      | None => None
+      | Some true => Some true
+      | Some false => match_bools E l'
+      end
+  end.
+
+Definition clause_matches (E : env) (tag : option Z) (c : stmt) : option bool :=
+  match c, tag with
+  | SCase (CInts l) _ _, Some v => match_ints E v l
+  | SCase (CBools l) _ _, None => match_bools E l
+  | _, _ => Some false
+  end.
+
+(** Index of the first clause that matches; [Some None]: none does. *)
+Fixpoint select (E : env) (tag : option Z) (cls : list stmt) (i : nat) : option (option nat) :=
+  match cls with
+  | [] => Some None
+  | c :: cls' =>
+      match clause_matches E tag c with
+      | None => None
+      | Some true => Some (Some i)
+      | Some false => select E tag cls' (S i)
+      end
+  end.
+
+Fixpoint default_index (cls : list stmt) (i : nat) : option nat :=
+  match cls with
+  | [] => None
+  | SCase CDefault _ _ :: _ => Some i
+  | _ :: cls' => default_index cls' (S i)
+  end.
+
+(** The bodies from the selected clause on: each in its own scope; [fallthrough] goes on with the
+    next body.  [xl] runs a statement list (it is [exec_list] with the remaining fuel). *)
+Fixpoint run_clauses (xl : list stmt -> env -> list Z -> res) (cls : list stmt) (E : env) (out : list Z) : res :=
+  match cls with
+  | SCase _ body ft :: rest =>
+      match xl body E out with
+      | Fuel => Fuel
+      | Res ONormal E1 out1 =>
+          if ft then run_clauses xl rest (restore E E1) out1 else Res ONormal (restore E E1) out1
+      | Res o E1 out1 => Res o (restore E E1) out1
+      end
+  | _ => Res ONormal E out
+  end.
+
+Definition eval_tag (E : env) (tag : option aexp) : option (option Z) :=
+  match tag with
+  | None => Some None
+  | Some t => match aeval E t with Some v => Some (Some v) | None => None end
+  end.
+
 Fixpoint exec (n : nat) (s : stmt) (E : env) (out : list Z) {struct n} : res :=
   match n with
   | O => Fuel
@@ -143,6 +213,30 @@ Fixpoint exec (n : nat) (s : stmt) (E : env) (out : list Z) {struct n} : res :=
           end
       | SBreak => Res OBreak E out
       | SContinue => Res OContinue E out
+      | SSwitch init tag cls =>
+          match (match init with None => Res ONormal E out | Some s0 => exec n' s0 E out end) with
+          | Fuel => Fuel
+          | Res ONormal E1 out1 =>
+              match eval_tag E1 tag with
+              | None => Res OPanic (restore E E1) out1
+              | Some tv =>
+                  match select E1 tv cls 0 with
+                  | None => Res OPanic (restore E E1) out1
+                  | Some sel =>
+                      match (match sel with Some i => Some i | None => default_index cls 0 end) with
+                      | None => Res ONormal (restore E E1) out1
+                      | Some i =>
+                          match run_clauses (exec_list n') (skipn i cls) E1 out1 with
+                          | Fuel => Fuel
+                          | Res OBreak E2 out2 => Res ONormal (restore E E2) out2
+                          | Res o E2 out2 => Res o (restore E E2) out2
+                          end
+                      end
+                  end
+              end
+          | Res o E1 out1 => Res o (restore E E1) out1
+          end
+      | SCase _ _ _ => Res ONormal E out      (* only meaningful inside a switch *)
       end
   end
 
